@@ -413,6 +413,31 @@ class Resolver:
         self._attr_types[key] = out
         return out
 
+    def class_has_attr(self, c: ClassInfo, name: str) -> bool:
+        """does class `c` (or a base) define attribute `name`: method, property, class-level
+        assignment/annotation, nested class, or `self.name = ...` in one of its methods."""
+        key = ("has", c.qualname, name)
+        if key in self._attr_types:
+            return self._attr_types[key]
+        res = False
+        for k in c.mro():
+            if name in k.methods or name in k.class_assigns or name in k.annotations or name in k.nested:
+                res = True
+                break
+            for mm in k.methods.values():
+                for n in walk_own(mm.node):
+                    if isinstance(n, ast.Attribute) and n.attr == name and isinstance(n.ctx, ast.Store) and dotted(n.value) == "self":
+                        res = True
+                        break
+                if res:
+                    break
+            if res:
+                break
+        if not res and (c.has_external_base() or c.find_method("__getattr__") is not None):
+            res = True
+        self._attr_types[key] = res
+        return res
+
     # ----------------------------------------------------------- call targets
     def resolve_call(self, call: ast.Call, fn: FuncInfo | None, depth: int = 0) -> Resolved:
         repo = self.repo
